@@ -19,14 +19,20 @@ OK_STMTS = [
 ]
 RUN_FAIL = ['undefined_name', 'throw "boom"', 'nil.x', '[1][5]', 'import("nosuch")', 'toInt()', 'x = 1; x()', 'nosuch.b = 1',
             'throw "two\\nlines"', 'break', 'continue', 'if true { break }', 'load("nosuch.ank")', 'c = make(chan int64); close(c); close(c)', 'return 1; nosuch()', 'func() { return missing }()', 'range(1, 2, 0)', 'len(1)']
+# scripts that run without error and end in a value of every kind (the value is not the verdict: vm.Execute's error is)
+LAST_VALUES = ['errors = import("errors"); errors.New("an error value")', 'e2 = nil; try { throw "a" } catch q { e2 = q }; e2', 'false', '0', 'nil', '"error"', 'func() { }',
+               '[1, 2]', 'os = import("os"); os.Remove("/nonexistent/zz")', 'return import("errors").New("returned")', 'module m { a = 1 }; m', '-1', '{"err": "x"}',
+               'func f() { return import("errors").New("from f") }; f()', 'fmt = import("fmt"); fmt.Errorf("made %d", 1)', 'true', '1.5', 'return', 'return nil, "x"']
 PARSE_FAIL = ['x = (', '1 +* ', '"unterminated', 'if {', 'func(', '}', '@', 'a = 1 b = 2', "x = 'ab'", '/* open comment']
 ARGS = ["a", "b c", "1", "", "é", "x.ank", "-", "k=v"]
 FLAGGY = ["-x", "--", "-v", "-e", "-e=1", "-h", "--zzz", "-v=false", "-v=maybe"]
 
 
 def gen_case(rnd, i):
-    kind = rnd.choices(["ok", "run", "parse", "unreadable", "flags", "empty"], [40, 25, 15, 6, 10, 4])[0]
+    kind = rnd.choices(["ok", "run", "parse", "unreadable", "flags", "empty", "value"], [34, 23, 14, 6, 10, 4, 9])[0]
     stmts = [rnd.choice(OK_STMTS) for _ in range(rnd.randint(0, 5))]
+    if kind == "value":
+        stmts.append(rnd.choice(LAST_VALUES))
     if kind == "run":
         stmts.insert(rnd.randint(0, len(stmts)), rnd.choice(RUN_FAIL))
     if kind == "parse":
